@@ -114,6 +114,15 @@ PROPS = {
         real=['event::CommonLoop signal pipe, process-wide handler table, sigaction save/restore', 'SignalEventImpl', 'real sigaction()/raise()/pipes'],
         stub=['kernel thread scheduling (seeded scheduler)', 'the moment of signal delivery (raise() on a chosen thread, one at a time)'],
     ),
+    'C11': dict(
+        harness='c11_modules',
+        title='Module tree life cycle',
+        flavours=dict(asan=dict(quick_s=20, thorough_s=300)),
+        mode='single',
+        real=['main::Module (add, fillDefaultConfig, initialize, start, stop, cleanup, destructor)'],
+        stub=['main::Context (the probe hooks never use it)', 'the application modules (probe modules whose hooks fail according to the fault plan)'],
+        level_text='Seeded search over tree shapes, hook-failure assignments (the fault plan) and root call sequences against the real Module class; the only nondeterminism of this property is the fault plan - there is no schedule or clock in it. A clean batch is evidence, not proof.',
+    ),
 }
 
 NOT_APPLICABLE = {
@@ -125,4 +134,4 @@ NOT_APPLICABLE = {
 
 # planned in DESIGN.md §7 but whose harness is not built yet — not claimed until it is
 PENDING = {p: 'harness not built yet (planned in DESIGN.md §7); not claimed until the check exists' for p in
-           ['C11', 'C13', 'C17']}
+           ['C13', 'C17']}
